@@ -285,6 +285,37 @@ func c12convRun(o *vh.Out, inAny any) {
 		}
 		fexts = append(fexts, vh.Tuple(vh.Zi(int(d)), vh.App("mkFE", a, b, c)))
 	}
+	// independent reading of "line bounds are the font's extents under the same scale as the glyph advances":
+	// the face's own extents (font units) times scale / upem, rounded; the documented conventions (0.8 / 0.2 of the
+	// em horizontally, half the em on each side vertically) when the face has none
+	for _, d := range []harfbuzz.Direction{harfbuzz.LeftToRight, harfbuzz.RightToLeft, harfbuzz.TopToBottom, harfbuzz.BottomToTop} {
+		got := hf.ExtentsForDirection(d)
+		var want font.FontExtents
+		upem := float32(face.Upem())
+		sc := func(v float32, scale int32) float32 { return float32(int32(math.Round(float64(v * float32(scale) / upem)))) }
+		if d == harfbuzz.LeftToRight || d == harfbuzz.RightToLeft {
+			fe, ok := face.FontHExtents()
+			if ok {
+				want = font.FontExtents{Ascender: sc(fe.Ascender, hf.YScale), Descender: sc(fe.Descender, hf.YScale), LineGap: sc(fe.LineGap, hf.YScale)}
+			} else {
+				a := float32(hf.YScale) * 0.8
+				want = font.FontExtents{Ascender: a, Descender: a - float32(hf.YScale)}
+			}
+		} else {
+			fe, ok := face.FontVExtents()
+			if ok {
+				want = font.FontExtents{Ascender: sc(fe.Ascender, hf.XScale), Descender: sc(fe.Descender, hf.XScale), LineGap: sc(fe.LineGap, hf.XScale)}
+			} else {
+				a := float32(hf.XScale) * 0.5
+				want = font.FontExtents{Ascender: a, Descender: a - float32(hf.XScale)}
+			}
+		}
+		if got != want {
+			idx := o.Add(in, c12convEmpty, "", "font extents")
+			o.Fail(idx, "oracle", fmt.Sprintf("ExtentsForDirection(%d) = %v, the face's extents under the scale of the advances (scale %d/%d, upem %v) are %v", d, got, hf.XScale, hf.YScale, upem, want))
+			return
+		}
+	}
 	xscale, yscale, hbdir := hf.XScale, hf.YScale, buf.Props.Direction
 	ids := make([]string, len(out.Glyphs))
 	for i, g := range out.Glyphs {
